@@ -110,6 +110,34 @@ class Alg:
                 v = sp.re(v)
         return v
 
+    def num_at(self, e, base: dict):
+        """numeric value of e with the base symbols in `base` overridden; square-root symbols are recomputed from their radicands"""
+        memo: dict = {}
+
+        def val(sym):
+            if sym in memo:
+                return memo[sym]
+            if sym in base:
+                v = sp.sympify(base[sym])
+            elif sym in self.lazy:
+                v = sp.sqrt(sp.N(ev(self.lazy[sym]), self.PREC))
+            elif sym in self.pos:
+                v = sp.sqrt(sp.N(ev(self.rel[sym]), self.PREC))
+            else:
+                v = self.numv.get(sym)
+                if v is None:
+                    raise Undecided(f"{self.tag}: no witness value for {sym}")
+            memo[sym] = v
+            return v
+
+        def ev(x):
+            x = sp.sympify(x)
+            if x.has(sp.nan):
+                return sp.nan
+            r = x.xreplace({s_: val(s_) for s_ in x.free_symbols})
+            return r if r.is_Rational else sp.N(r, self.PREC)
+        return ev(e)
+
     def fnum(self, e) -> float:
         if isinstance(e, sp.Basic) and e.has(sp.nan):
             return float("nan")
@@ -503,6 +531,8 @@ class Interp:
         self.alg, self.repo, self.stubs, self.tag = alg, repo, dict(stubs or {}), tag
         self.masked_stores: dict = {}      # (lineno, col) -> exercised with a non-empty selection?
         self.decisions: list = []          # (text of the predicate, outcome) of data-dependent decisions
+        self.cmp_log: list = []            # (text, lhs, rhs) of comparisons with a symbolic operand
+        self._modconst: dict = {}
         self.depth = 0
 
     # ---- entry points -----------------------------------------------------------------------------------
@@ -551,6 +581,30 @@ class Interp:
         finally:
             self.depth -= 1
         return None
+
+    def module_constant(self, mod, name: str):
+        """value of a module-level constant: the (last) top-level assignment to the name, evaluated in the module's own scope"""
+        key = (mod.rel, mod.digest, name)
+        if key in self._modconst:
+            v0 = self._modconst[key]
+            return v0.copy() if isinstance(v0, np.ndarray) else v0
+        val_node = None
+        for st in mod.tree.body:
+            if isinstance(st, ast.Assign) and any(isinstance(t, ast.Name) and t.id == name for t in st.targets):
+                val_node = st.value
+            elif isinstance(st, ast.AnnAssign) and isinstance(st.target, ast.Name) and st.target.id == name and st.value is not None:
+                val_node = st.value
+        if val_node is None:
+            raise Undecided(f"{self.tag}: unknown name {name}")
+        if self.depth >= self.MAXDEPTH:
+            raise Undecided(f"{self.tag}: module constant {name}: nesting too deep")
+        self.depth += 1
+        try:
+            val = self.ev(val_node, {"__mod__": mod})
+        finally:
+            self.depth -= 1
+        self._modconst[key] = val
+        return val.copy() if isinstance(val, np.ndarray) else val
 
     # ---- statements -------------------------------------------------------------------------------------
     def block(self, body, env) -> None:
@@ -715,6 +769,9 @@ class Interp:
                 return env[e.id]
             if e.id in ("np", "pp", "sps", "scidist", "float", "int", "bool"):
                 return Opaque(e.id)
+            mod = env.get("__mod__")
+            if mod is not None:
+                return self.module_constant(mod, e.id)
             raise Undecided(f"{self.tag}: unknown name {e.id}")
         if isinstance(e, (ast.Tuple, ast.List)):
             vals = [self.ev(x, env) for x in e.elts]
@@ -729,6 +786,8 @@ class Interp:
                 return not self.truth(v, e.operand)
             if isinstance(e.op, ast.Invert) and isinstance(v, np.ndarray) and v.dtype == bool:
                 return ~v
+            if isinstance(e.op, ast.Invert) and isinstance(v, np.bool_):
+                return not bool(v)
             raise Undecided(f"{self.tag}: unary {u(e)[:40]}")
         if isinstance(e, ast.BoolOp):
             res = None
@@ -861,6 +920,12 @@ class Interp:
                     return l // r
                 if isinstance(op, ast.Mod):
                     return l % r
+                if isinstance(op, (ast.BitAnd, ast.BitOr, ast.BitXor)):
+                    lb = isinstance(l, (bool, np.bool_)) or (isinstance(l, np.ndarray) and l.dtype == bool)
+                    rb = isinstance(r, (bool, np.bool_)) or (isinstance(r, np.ndarray) and r.dtype == bool)
+                    if lb and rb:
+                        res = (l & r) if isinstance(op, ast.BitAnd) else ((l | r) if isinstance(op, ast.BitOr) else (l ^ r))
+                        return bool(res) if isinstance(res, np.bool_) else res
             if native and isinstance(op, ast.Pow) and isinstance(r, (int, np.integer)) and r >= 0:
                 return l ** r
             l, r = _symnum(l), _symnum(r)
@@ -947,6 +1012,7 @@ class Interp:
             res = one(l, r)
         if symbolic[0]:
             self.decisions.append((u(node)[:70], str(res.tolist() if isinstance(res, np.ndarray) else res)))
+            self.cmp_log.append((u(node)[:100], l, r))
         return res
 
     # ---- attributes ---------------------------------------------------------------------------------------
@@ -1059,6 +1125,8 @@ class Interp:
             return self.truth(args[0], c)
         if nm == "abs" and len(args) == 1:
             return self._abs(args[0])
+        if nm == "slice" and 1 <= len(args) <= 3 and all(a is None or isinstance(a, (int, np.integer)) for a in args):
+            return slice(*[None if a is None else int(a) for a in args])
         if nm == "range":
             return list(range(*[int(a) for a in args]))
         if nm == "isinstance" and len(c.args) == 2:
@@ -1522,7 +1590,7 @@ META = {
     "level_note": "Decides the algebraic identities (orthogonality, determinant, image of the normal, idempotence, block layout) for symbolic input on the "
                   "listed paths; nothing about floating point, tolerances or degenerate input.",
 }
-MIN_INSTANCES = {"R1": 5, "R2": 20, "R3": 9, "R4": 15, "R5": 60, "R6": 12, "R7": 22}
+MIN_INSTANCES = {"R1": 5, "R2": 24, "R3": 9, "R4": 15, "R5": 72, "R6": 12, "R7": 22}
 
 _CACHE: dict = {}
 
@@ -1572,7 +1640,8 @@ def _group(ctx: Ctx, name: str, roots: list, body: Callable[[Rec], None]) -> Non
     deps: set = set()
     for rel, qual in roots:
         _fn_closure(ctx.repo, rel, qual, deps)
-    key = (name, tuple(sorted((rel, q, ast.dump(ctx.repo.module(rel).need(q))) for rel, q in deps)))
+    consts = tuple(sorted((rel, "".join(ast.dump(st) for st in ctx.repo.module(rel).tree.body if isinstance(st, (ast.Assign, ast.AnnAssign)))) for rel in {r_ for r_, _ in deps}))
+    key = (name, tuple(sorted((rel, q, ast.dump(ctx.repo.module(rel).need(q))) for rel, q in deps)), consts)
     rec = _CACHE.get(key)
     if rec is None:
         rec = Rec()
@@ -1774,6 +1843,16 @@ def _r2(repo, rec: Rec) -> None:
                 nv = sc.alg.sqrt(sum(x * x for x in m))
                 un = np.array([x / nv for x in m], dtype=object)
                 _identity(rec, "R2", sc, MG, q, f"symbolic {dirname}, reference {nm} given as a list", f"R maps the unit {dirname} to the reference", _mat_terms(np.dot(R, un), _o(np.array(ref))))
+        # (c2) symbolic direction whose witness is NEARLY parallel / anti-parallel to the default reference (angle about 2e-3): the map must still be exact
+        for nm, w3 in (("nearly parallel", 1), ("nearly anti-parallel", -1)):
+            m = _vec("m")
+            sc = Scen(repo, _wit([(m[0], (1, 1000)), (m[1], (-2, 1000)), (m[2], w3)]))
+            ok, R = _run(rec, "R2", MG, q, nm, lambda: call(sc, **{kwname: m.copy()}))
+            if ok:
+                nv = sc.alg.sqrt(sum(x * x for x in m))
+                un = np.array([x / nv for x in m], dtype=object)
+                _identity(rec, "R2", sc, MG, q, f"symbolic {dirname} {nm} to the default reference (angle 2e-3 at the witness)", f"R maps the unit {dirname} to the reference axis (0, 0, 1)",
+                          _mat_terms(np.dot(R, un), ez))
         # (d) direction parallel / anti-parallel to the reference: orthogonal, and the direction stays on the reference AXIS (sign not decided)
         for nm, w in (("parallel", 3), ("anti-parallel", -3)):
             t = _S("t")
@@ -2002,6 +2081,10 @@ def _r5(repo, rec: Rec) -> None:
             comp = [Z, Z, Z]
             comp[ax] = s
             cases.append((3, f"normal aligned with {'+' if sg > 0 else '-'}e_{'xyz'[ax]}", comp, {s: sg}))
+    for ax in range(3):
+        w = [sp.Rational(1, 10 ** 5), sp.Rational(-2, 10 ** 5), sp.Rational(3, 10 ** 5)]
+        w[ax] = sp.Integer(1) if ax != 1 else sp.Integer(-1)
+        cases.append((3, f"normal NEARLY aligned with e_{'xyz'[ax]} (other components about 1e-5 at the witness)", [m1, m2, m3], {m1: w[0], m2: w[1], m3: w[2]}))
     for dim, lab, comp, w in cases:
         lab = f"{dim}-d, {lab}"
         normals = np.array(comp, dtype=object).reshape(dim, 1)
@@ -2220,5 +2303,11 @@ MUTANTS = [
     _m("tnp-ravel-order", TNP, '                [self._projection[:, :, i].ravel("F") for i in range(num)]\n', '                [self._projection[:, :, i].ravel("C") for i in range(num)]\n', "R6"),
     _m("tnp-normal-row-index", TNP, "        cols = np.arange(self.dim - 1, size_proj, self.dim)\n", "        cols = np.arange(0, size_proj, self.dim)\n", "R6", control=True),
     _m("tnp-repeat-last-block", TNP, '            data = np.tile(self._projection[:, :, 0].ravel(order="F"), num)\n', '            data = np.tile(self._projection[:, :, -1].ravel(order="F"), num)\n', "R6"),
+    # independently seeded changes (campaign; /tmp/seed_C32_out)
+    _m("seed-tnp-aligned-test-on-dominant-component", TNP, "                aligned_with_axis = np.logical_and(\n                    hit, np.linalg.norm(normal[other_dim], axis=0) < 1e-8\n                )\n",
+       "                aligned_with_axis = np.logical_and(hit, np.abs(normal[i]) > 1 - 1e-8)\n", "R5"),
+    _m("seed-plane-identity-when-nearly-aligned", MG, "    angle = np.arccos(np.dot(normal, reference))\n",
+       "    cos_angle = np.dot(normal, reference)\n    if np.isclose(np.abs(cos_angle), 1.0):\n        return np.identity(3)\n    angle = np.arccos(cos_angle)\n", "R2"),
+    _m("seed-line-tangent-not-normalised", MG, "        tangent = tangent.flatten() / np.linalg.norm(tangent)\n", "        tangent = np.asarray(tangent, dtype=float).flatten()\n", "R2"),
     _m("tnp-tangential-rows-keep-normal", TNP, "            np.arange(size_proj), np.arange(self.dim - 1, size_proj, self.dim)\n", "            np.arange(size_proj), np.arange(0, size_proj, self.dim)\n", "R6"),
 ]
